@@ -76,7 +76,7 @@ def classify(rep):
     try:
         f = float(rep)
         if rep.strip() == rep and rep.lower() not in ("nan", "inf", "infinity", "-inf", "+inf"):
-            return "fexp" if "e" in rep.lower() else ("fwhole" if f.is_integer() else "ffrac")
+            return ("fexpp" if f.is_integer() else "fexp") if "e" in rep.lower() else ("fwhole" if f.is_integer() else "ffrac")
     except ValueError:
         pass
     if len(rep) >= 2 and rep[0] == rep[-1] and rep[0] in "'\"":
@@ -256,6 +256,15 @@ class Ladder(object):
                     raise _Exc("TypeError", e)
                 res = needle in hay
                 return res if isinstance(op, ast.In) else not res
+            if isinstance(op, (ast.In, ast.NotIn)) and isinstance(r, ast.Name) and isinstance(env.get(r.id), (Text, str)):
+                # a substring test on the text itself (`"." in default`)
+                hay = env[r.id].rep if isinstance(env[r.id], Text) else env[r.id]
+                v = self.ev(l, env)
+                needle = v.rep if isinstance(v, Text) else v
+                if not isinstance(needle, str):
+                    raise _Exc("TypeError", e)
+                res = needle in hay
+                return res if isinstance(op, ast.In) else not res
             if isinstance(op, (ast.In, ast.NotIn)) and isinstance(r, ast.Name) and isinstance(env.get(r.id), (dict, list, tuple, set, frozenset)):
                 v = self._plain(self.ev(l, env), l)
                 res = v in env[r.id]
@@ -388,7 +397,10 @@ class Ladder(object):
                 return Val("str", recv.cls)
             if isinstance(recv, Val):
                 if f.attr == "is_integer" and not e.args and recv.typ in ("float", "int"):
-                    return recv.cls in ("uint", "sint", "fwhole")
+                    # decided on the representative of the class the value came from (1e+16 is a whole number, 1e-07 is not)
+                    if recv.cls in NUMERIC:
+                        return float(CLASSES[recv.cls][0]).is_integer()
+                    raise _Unknown("is_integer of a value that came from %s" % recv.cls, e)
                 raise _Unknown("%s.%s" % (recv.typ, f.attr), e)
             if isinstance(recv, str) and f.attr == "format":
                 a_ = [self.ev(a, env) for a in e.args]
@@ -980,11 +992,30 @@ def rule_scan_end(prog, rep, tier, anchor="defaults_utils.extract_default"):
     line_param = fi.params()[0]
     folder = Folder(prog)
     resolved = 0
-    for tail, want, kind in SCAN_SAMPLES:
-        head = "the x. Defaults to "
-        if isinstance(tail, tuple):
+    # the same quoted value behind the reader's other announcements: one that does not end in a blank (`Default: "a.b"`), one that ends
+    # in a line break (the value on the next, indented line), and a doubled blank - the value then does not start the scanned text
+    samples = list(SCAN_SAMPLES)
+    try:
+        from sa.rules.table import _announce_reader
+        R = _announce_reader(prog, folder)[0]
+    except AnalysisError:
+        R = ()
+    tight = next((r for r in R if r and not r[-1].isspace()), None)
+    broken = next((r for r in R if r.endswith("\n")), None)
+    spaced = next((r for r in R if r.endswith(" ")), None)
+    if tight:
+        samples.append((("the x. " + tight, ' "model.h5". More prose.', tight), '"model.h5"', "quoted-behind-blank"))
+    if broken:
+        samples.append((("the x, " + broken, '    "a.b"', broken), '"a.b"', "quoted-on-next-line"))
+    if spaced:
+        samples.append((("the x. " + spaced[0].upper() + spaced[1:], ' "a.b". Tail', spaced), '"a.b"', "quoted-behind-two-blanks"))
+    for tail, want, kind in samples:
+        head, announce = "the x. Defaults to ", "defaults to "
+        if isinstance(tail, tuple) and len(tail) == 3:
+            head, tail, announce = tail
+        elif isinstance(tail, tuple):
             head, tail = tail
-        env = {line_param: head + tail, names[0]: len(head) - len("defaults to "), names[1]: len(head), names[2]: "defaults to "}
+        env = {line_param: head + tail, names[0]: len(head) - len(announce), names[1]: len(head), names[2]: announce}
         lad = Ladder(prog, folder)
         lad.tracked = var
         inst = "scan of %r" % tail
@@ -1012,4 +1043,4 @@ def rule_scan_end(prog, rep, tier, anchor="defaults_utils.extract_default"):
         except (_Unknown, _Return) as u:
             rep.ob("SCAN-END", inst, "unresolved", loc(prog, getattr(u, "at", None) or body[search_i + 1]), "not interpreted: %s" % getattr(u, "why", "the scan returns"))
     if resolved < 6:
-        raise AnalysisError("SCAN-END: only %d of %d sample texts could be followed through the scan of %s" % (resolved, len(SCAN_SAMPLES), anchor))
+        raise AnalysisError("SCAN-END: only %d of %d sample texts could be followed through the scan of %s" % (resolved, len(samples), anchor))
